@@ -1,8 +1,207 @@
 /-
-  C09 — (theorems being added)
+  C09 — grammar files decode to the grammar in memory: the LoPar writer refuses exactly the
+  non-context-free grammars; lexical rules embedded by `lex_in_grammar`; decimal rendering and
+  whitespace splitting round trips; lexicon file, LoPar grammar file, LoPar start file and PMCFG
+  file decode (by the independent decoders of `TT/Spec/Grammar.lean`) to the grammar in memory.
+  Helper lemmas: TT/Lemmas/GramOut.lean.
 -/
 import TT.Spec.Grammar
+import TT.Lemmas.GramOut
 namespace TT.Props.C09
 open TT TT.Tree TT.Spec
+open TT.Lemmas.GramOut
+
+/-! ## a small concrete grammar: `S -> VP2 NP` with a fan-out 2 `VP2`, and a lexicon with an ambiguous
+    capitalised word -/
+
+def exG : Grammar :=
+  [(["S".toList, "VP".toList, "NP".toList], [([[(0, 0), (1, 0), (0, 1)]], [(VertKey.default, 3)])]),
+   (["VP".toList, "V".toList, "PTK".toList], [([[(0, 0)], [(1, 0)]], [(VertKey.ctx ["S1".toList], 2), (VertKey.default, 1)])])]
+
+/-- the context-free part of it -/
+def exCF : Grammar :=
+  [(["S".toList, "NP".toList, "VP".toList], [([[(0, 0), (1, 0)]], [(VertKey.default, 3)])]),
+   (["NP".toList, "N".toList], [([[(0, 0)]], [(VertKey.ctx ["S1".toList], 2), (VertKey.default, 1)])]),
+   (["VP".toList, "V".toList], [([[(0, 0)]], [(VertKey.default, 3)])])]
+
+def exLex : Lexicon :=
+  [("Essen".toList, [("NN".toList, 2), ("NE".toList, 1)]), ("isst".toList, [("VVFIN".toList, 4)])]
+
+/-! ## the LoPar writer refuses exactly the grammars that are not context-free -/
+
+/-- the LoPar writer refuses exactly the grammars that are not context-free -/
+theorem lopar_refuses_iff (g : Grammar) (lex : Lexicon) :
+    (∃ e, writeLopar g lex = .error e) ↔ isContextFree g = false := by
+  unfold writeLopar
+  cases h : isContextFree g <;> simp
+
+example : isContextFree exG = false := by decide
+example : ∃ e, writeLopar exG exLex = .error e := (lopar_refuses_iff exG exLex).2 (by decide)
+example : isContextFree exCF = true := by decide
+
+/-! ## lexical rules embedded in the grammar -/
+
+/-- general form: the count of `tag -> word` grows by the lexicon count, whatever was there -/
+theorem addLexRules_count_add (g : Grammar) (lex : Lexicon) (w t : Str)
+    (hnd : (lex.map (·.1)).Nodup) (hnd2 : ∀ e ∈ lex, (e.2.map (·.1)).Nodup) :
+    gramCount (addLexRules g lex) [t, w] [[(0, 0)]] .default =
+      gramCount g [t, w] [[(0, 0)]] .default + lexCount lex w t := by
+  rw [gramCount_addLexRules, lexTotal_eq_lexCount lex w t hnd hnd2]
+  simp
+
+/-- lexical rules embedded in the grammar: each (word, tag) pair contributes its count to the rule tag -> word -/
+theorem addLexRules_count (g : Grammar) (lex : Lexicon) (w t : Str)
+    (hfresh : ∀ e ∈ g, e.1 ≠ [t, w]) (hnd : (lex.map (·.1)).Nodup) (hnd2 : ∀ e ∈ lex, (e.2.map (·.1)).Nodup) :
+    gramCount (addLexRules g lex) [t, w] [[(0, 0)]] .default = lexCount lex w t := by
+  rw [addLexRules_count_add g lex w t hnd hnd2]
+  have : AList.get? [t, w] g = none := by
+    apply get?_eq_none_of_not_mem
+    intro hm
+    obtain ⟨e, he, he'⟩ := List.mem_map.1 hm
+    exact hfresh e he he'
+  simp [gramCount, this]
+
+example : gramCount (addLexRules exG exLex) ["NE".toList, "Essen".toList] [[(0, 0)]] .default = 1 := by decide
+example : (∀ e ∈ exG, e.1 ≠ ["NE".toList, "Essen".toList]) ∧ (exLex.map (·.1)).Nodup ∧
+    ∀ e ∈ exLex, (e.2.map (·.1)).Nodup := by decide
+
+/-- The statement of `addLexRules_keeps` as given (without the two `Nodup` hypotheses) is FALSE on
+    association lists that are not dictionaries: `lexCount` only sees the first entry of a key, the
+    writer adds all of them. Counterexample: a repeated tag whose first count is `0`. -/
+def cexLex : Lexicon := [("w".toList, [("T".toList, 0), ("T".toList, 5)])]
+
+theorem addLexRules_keeps_false :
+    ¬ ∀ (g : Grammar) (lex : Lexicon) (f : Func) (l : Lin) (v : VertKey),
+      (∀ w t, f ≠ [t, w] ∨ lexCount lex w t = 0) → gramCount (addLexRules g lex) f l v = gramCount g f l v := by
+  intro h
+  have h1 := h [] cexLex ["T".toList, "w".toList] [[(0, 0)]] .default (by
+    intro w t
+    by_cases e : ["T".toList, "w".toList] = [t, w]
+    · right
+      simp only [List.cons.injEq, and_true] at e
+      obtain ⟨rfl, rfl⟩ := e
+      decide
+    · left; exact e)
+  revert h1
+  decide
+
+/-- corrected version: with the lexicon a dictionary (keys distinct, as in Python) every other entry keeps its count -/
+theorem addLexRules_keeps (g : Grammar) (lex : Lexicon) (f : Func) (l : Lin) (v : VertKey)
+    (hnd : (lex.map (·.1)).Nodup) (hnd2 : ∀ e ∈ lex, (e.2.map (·.1)).Nodup)
+    (h : ∀ w t, f ≠ [t, w] ∨ lexCount lex w t = 0) : gramCount (addLexRules g lex) f l v = gramCount g f l v := by
+  rw [gramCount_addLexRules]
+  by_cases hf : ∃ w t, f = [t, w]
+  · obtain ⟨w, t, rfl⟩ := hf
+    rw [lexTotal_eq_lexCount lex w t hnd hnd2]
+    rcases h w t with h | h
+    · exact absurd rfl h
+    · simp [h]
+  · rw [lexTotal_not_pair lex f (fun w t e => hf ⟨w, t, e⟩)]
+    simp
+
+/-- without any hypothesis on the lexicon: entries other than `tag -> word` rules keep their count -/
+theorem addLexRules_keeps_other (g : Grammar) (lex : Lexicon) (f : Func) (l : Lin) (v : VertKey)
+    (h : l ≠ [[(0, 0)]] ∨ v ≠ .default ∨ ∀ w t, f ≠ [t, w]) :
+    gramCount (addLexRules g lex) f l v = gramCount g f l v := by
+  rw [gramCount_addLexRules]
+  rcases h with h | h | h
+  · have : ¬ ([[((0 : Int), 0)]] = l ∧ VertKey.default = v) := fun e => h e.1.symm
+    simp [this]
+  · have : ¬ ([[((0 : Int), 0)]] = l ∧ VertKey.default = v) := fun e => h e.2.symm
+    simp [this]
+  · simp [lexTotal_not_pair lex f h]
+
+example : gramCount (addLexRules exG exLex) ["S".toList, "VP".toList, "NP".toList] [[(0, 0), (1, 0), (0, 1)]] .default = 3 := by
+  decide
+
+/-! ## string-level round trips -/
+
+/-- decimal rendering round trip -/
+theorem strToNat_natToStr (n : Nat) : strToNat? (natToStr n) = some n :=
+  TT.Lemmas.GramOut.strToNat_natToStr n
+
+example : strToNat? (natToStr 2026) = some 2026 := by decide
+
+/-- splitting a space-joined list of whitespace-free, non-empty fields gives the fields back -/
+theorem splitWs_unwords (l : List Str) (h : ∀ s ∈ l, s ≠ [] ∧ ∀ c ∈ s, pyIsSpace c = false) : splitWs (unwords l) = l :=
+  TT.Lemmas.GramOut.splitWs_unwords l h
+
+example : splitWs (unwords ["VP".toList, "V".toList, "PTK".toList]) = ["VP".toList, "V".toList, "PTK".toList] := by decide
+example : ∀ s ∈ ["VP".toList, "V".toList, "PTK".toList], s ≠ [] ∧ ∀ c ∈ s, pyIsSpace c = false := by decide
+
+/-- lexicon file round trip (words and tags non-empty and whitespace-free, every word has a tag) -/
+theorem decLex_lexLines (lex : Lexicon)
+    (h : ∀ e ∈ lex, e.1 ≠ [] ∧ (∀ c ∈ e.1, pyIsSpace c = false) ∧ e.2 ≠ [] ∧
+         ∀ tc ∈ e.2, tc.1 ≠ [] ∧ ∀ c ∈ tc.1, pyIsSpace c = false)
+    (hnd : (lex.map (·.1)).Nodup) (hnd2 : ∀ e ∈ lex, (e.2.map (·.1)).Nodup) :
+    decLex (lexLines lex) = some lex := by
+  rw [decLex_eq, foldlM_lexLines [] lex (fun e he => ⟨(h e he).2.1, (h e he).2.2.2⟩),
+    foldl_add_lex [] lex (by simpa using hnd) (fun e he => (h e he).2.2.1) hnd2]
+  simp
+
+example : decLex (lexLines exLex) = some exLex := by decide
+example : lexLines exLex = ["Essen\tNN 2 NE 1".toList, "isst\tVVFIN 4".toList] := by decide
+
+/-! ## LoPar files -/
+
+/-- LoPar grammar file round trip -/
+theorem decLoparGram_write (g : Grammar) (lex : Lexicon) (files : LoparFiles) (h : writeLopar g lex = .ok files)
+    (hl : ∀ e ∈ g, e.1 ≠ [] ∧ ∀ s ∈ e.1, s ≠ [] ∧ ∀ c ∈ s, pyIsSpace c = false) :
+    decLoparGram files.gram = some (g.rules.map fun (f, _, c) => (f, c)) := by
+  rw [writeLopar_gram g lex files h]
+  unfold decLoparGram
+  apply mapM_option_map
+  rintro ⟨f, l, c⟩ hr
+  obtain ⟨e, he, hef⟩ := mem_rules_func g _ hr
+  simp only at hef
+  subst hef
+  obtain ⟨hne, hs⟩ := hl e he
+  cases hf : e.1 with
+  | nil => exact absurd hf hne
+  | cons a r =>
+    rw [hf] at hs
+    simp only [List.head?_cons, Option.getD_some, List.drop_succ_cons, List.drop_zero]
+    rw [List.append_assoc, List.append_assoc,
+      splitWs_word_sp _ _ ⟨natToStr_ne_nil c, natToStr_noSpace c⟩,
+      ← List.append_assoc, splitWs_cons_unwords a r (hs a (by simp)) (fun s h' => hs s (by simp [h']))]
+    simp [TT.Lemmas.GramOut.strToNat_natToStr]
+
+/-- the lexicon file written by the LoPar writer decodes to the lexicon -/
+theorem decLex_lopar (g : Grammar) (lex : Lexicon) (files : LoparFiles) (h : writeLopar g lex = .ok files)
+    (hx : ∀ e ∈ lex, e.1 ≠ [] ∧ (∀ c ∈ e.1, pyIsSpace c = false) ∧ e.2 ≠ [] ∧
+         ∀ tc ∈ e.2, tc.1 ≠ [] ∧ ∀ c ∈ tc.1, pyIsSpace c = false)
+    (hnd : (lex.map (·.1)).Nodup) (hnd2 : ∀ e ∈ lex, (e.2.map (·.1)).Nodup) :
+    decLex files.lex = some lex := by
+  rw [writeLopar_lex g lex files h]
+  exact decLex_lexLines lex hx hnd hnd2
+
+/-- start symbols: exactly the LHS labels that never occur on an RHS, with their summed counts -/
+theorem lopar_start (g : Grammar) (lex : Lexicon) (files : LoparFiles) (h : writeLopar g lex = .ok files) :
+    files.start = (((g.map fun (f, _) => f.head?.getD []).eraseDups.filter fun s => !(g.flatMap fun (f, _) => f.drop 1).contains s).map
+      fun s => s ++ sp ++ natToStr (lhsMass g s)) := by
+  unfold writeLopar at h
+  split at h
+  · cases h
+  · simp only at h
+    cases h
+    simp only [List.map_map]
+    rfl
+
+/-- the files written for the context-free example grammar -/
+def exFiles : LoparFiles :=
+  { gram := ["3 S NP VP".toList, "3 NP N".toList, "3 VP V".toList],
+    lex := ["Essen\tNN 2 NE 1".toList, "isst\tVVFIN 4".toList],
+    start := ["S 3".toList],
+    oc := ["VVFIN 4".toList],
+    ocU := ["NN 2".toList, "NE 1".toList] }
+
+example : (match writeLopar exCF exLex with
+    | .ok f => (f.gram, f.lex, f.start, f.oc, f.ocU) == (exFiles.gram, exFiles.lex, exFiles.start, exFiles.oc, exFiles.ocU)
+    | .error _ => false) = true := by decide
+example : ∀ e ∈ exCF, e.1 ≠ [] ∧ ∀ s ∈ e.1, s ≠ [] ∧ ∀ c ∈ s, pyIsSpace c = false := by decide
+example : decLoparGram exFiles.gram = some (exCF.rules.map fun (f, _, c) => (f, c)) := by decide
+example : decCountLines exFiles.start = some [("S".toList, 3)] := by decide
+/-- a rule without RHS elements is written with a trailing blank and still decodes -/
+example : decLoparGram ["7 X ".toList] = some [(["X".toList], 7)] := by decide
 
 end TT.Props.C09
